@@ -30,6 +30,10 @@ def gen_items(rng, n):
         s = rng.randrange(1, 500)
         keys = ["ID"] + (["Name"] if rng.random() < 0.5 else []) + (["Parent"] if rng.random() < 0.4 else [])
         attrs = ";".join("%s=%s%d" % (k, k[0].lower(), i) if k != "Parent" else "Parent=i0" for k in keys)
+        if rng.random() < 0.3:
+            # characters str.splitlines() treats as line boundaries but text files do not (and that are printed raw)
+            keys = keys + ["Note"]
+            attrs += ";Note=a%sb" % rng.choice(["\x85", "\u2028", "\u2029", "\u2028\x85"])
         items.append({"line": "\t".join([chrom, "src", t, str(s), str(s + rng.randrange(0, 50)), ".", rng.choice("+-"), ".", attrs]),
                       "id": "i%d" % i, "flag": s % 2 == 1, "type": t, "chrom": chrom, "keys": keys})
     for it in items:
